@@ -414,7 +414,7 @@ func TestC09(t *testing.T) {
 		if walkDoc != nil && g.chance(75, "walk") {
 			chain, reach = GenWalk(rt, walkDoc, 3, strict, "w")
 		}
-		g.budget = 2 + g.n(8, "size")
+		g.budget = 2 + g.n(sz(8), "size")
 		tail := g.chain(gctx{}, 1+g.n(3, "tail"))
 		for _, r := range reach {
 			if m, ok := r.(map[string]any); ok && len(m) >= 2 && !cfg.NoKeyvalue && g.chance(60, "kvdirect") {
